@@ -1,30 +1,39 @@
 //! Correspondence harness for engine `rational` (property C07): drives rlib_rational::Rational<T>
-//! for T = i32, i64, i128 through every syntactic operator form.
+//! for T = i8, i16, i32, i64, i128, isize through every syntactic operator form, every comparison / equality / hash /
+//! clone entry point the standard traits offer (provided methods included), chains that re-use returned values, and
+//! several live values at once (sort, BTreeSet, HashSet, binary_search, clamp, slice hash).
 #[path = "../../common/mod.rs"]
 mod common;
 use common::*;
+use rlib_num_traits::ZeroOne;
 use rlib_rational::{Rational, SignedInteger};
-use std::cmp::Ordering;
+use std::cmp::{Ordering, Reverse};
 use std::collections::hash_map::DefaultHasher;
-use std::collections::HashSet;
+use std::collections::{BTreeSet, HashSet};
 use std::fmt::{Debug, Display};
 use std::hash::{Hash, Hasher};
 
-const TYPES: [&str; 3] = ["i32", "i64", "i128"];
+const TYPES: [&str; 6] = ["i8", "i16", "i32", "i64", "i128", "isize"];
+/// the three instantiations the property names; the guard-box stream cycles over these
+const GUARD_TYPES: [&str; 4] = ["i32", "i64", "i128", "isize"];
 
-/// the property's magnitude guard 2^(bits/2 - 2)
+/// the property's magnitude guard 2^(bits/2 - 2) (a box inside the domain; the domain itself reaches the type's limit)
 fn guard(ty: &str) -> i128 {
     match ty {
+        "i8" => 1 << 2,
+        "i16" => 1 << 6,
         "i32" => 1 << 14,
-        "i64" => 1 << 30,
+        "i64" | "isize" => 1 << 30,
         "i128" => 1 << 62,
         _ => unreachable!(),
     }
 }
 fn ty_max(ty: &str) -> i128 {
     match ty {
+        "i8" => i8::MAX as i128,
+        "i16" => i16::MAX as i128,
         "i32" => i32::MAX as i128,
-        "i64" => i64::MAX as i128,
+        "i64" | "isize" => i64::MAX as i128,
         "i128" => i128::MAX,
         _ => unreachable!(),
     }
@@ -32,15 +41,15 @@ fn ty_max(ty: &str) -> i128 {
 
 // ---------------------------------------------------------------- independent oracle (i128 + own Euclid)
 fn euclid(a: i128, b: i128) -> i128 {
-    let (mut a, mut b) = (a.abs(), b.abs());
+    let (mut a, mut b) = (a.unsigned_abs(), b.unsigned_abs());
     while b != 0 {
         let t = a % b;
         a = b;
         b = t;
     }
-    a
+    a as i128
 }
-/// lowest terms, positive denominator (den != 0)
+/// lowest terms, positive denominator (den != 0, neither field the minimum of i128)
 fn canon(n: i128, d: i128) -> (i128, i128) {
     let g = euclid(n, d);
     let (n, d) = (n / g, d / g);
@@ -54,53 +63,222 @@ fn floor_div(n: i128, d: i128) -> i128 {
     // d > 0
     n.div_euclid(d)
 }
-/// Expected result computed by cross multiplication, only called inside the guard (no i128 overflow there).
-fn oracle(op: &str, v: &[i128]) -> Option<String> {
-    let fr = |p: (i128, i128)| format!("{} {}", p.0, p.1);
+
+// ---- the property's domain, decided by the harness on its own (the driver decides it with Lean's `domNew`, `domAdd`, …):
+// ---- every intermediate value of the specified computation is representable in `ty`
+/// representable in `ty` (None = does not even fit i128)
+fn fits(ty: &str, z: Option<i128>) -> bool {
+    match z {
+        None => false,
+        Some(z) => ty == "i128" || (-ty_max(ty) - 1 <= z && z <= ty_max(ty)),
+    }
+}
+/// |z| <= MAX of `ty`: z, -z and |z| are representable
+fn mag_ok(ty: &str, z: Option<i128>) -> bool {
+    match z {
+        None => false,
+        Some(z) => z != i128::MIN && z.abs() <= ty_max(ty),
+    }
+}
+fn dom_new(ty: &str, a: i128, b: i128) -> bool {
+    b != 0 && mag_ok(ty, Some(a)) && mag_ok(ty, Some(b))
+}
+type Fr = (i128, i128);
+fn cross(x: Fr, y: Fr) -> (Option<i128>, Option<i128>) {
+    (x.0.checked_mul(y.1), x.1.checked_mul(y.0))
+}
+fn opt_add(p: Option<i128>, q: Option<i128>) -> Option<i128> {
+    p?.checked_add(q?)
+}
+fn opt_sub(p: Option<i128>, q: Option<i128>) -> Option<i128> {
+    p?.checked_sub(q?)
+}
+/// domain of a binary operator on CANONICAL operands
+fn dom_bin(op: &str, ty: &str, x: Fr, y: Fr) -> bool {
+    let (p1, p2) = cross(x, y);
     match op {
-        "new" => Some(fr(canon(v[0], v[1]))),
-        "newint" => Some(format!("{} 1", v[0])),
-        "neg" => Some(fr(canon(-v[0], v[1]))),
-        "show" => {
-            let p = canon(v[0], v[1]);
-            Some(format!("{}/{}", p.0, p.1))
+        "add" => fits(ty, p1) && fits(ty, p2) && mag_ok(ty, opt_add(p1, p2)) && mag_ok(ty, x.1.checked_mul(y.1)),
+        "sub" | "cmp" => fits(ty, p1) && fits(ty, p2) && mag_ok(ty, opt_sub(p1, p2)) && mag_ok(ty, x.1.checked_mul(y.1)),
+        "mul" => mag_ok(ty, x.0.checked_mul(y.0)) && mag_ok(ty, x.1.checked_mul(y.1)),
+        "div" => y.0 != 0 && mag_ok(ty, p1) && mag_ok(ty, p2),
+        "eq" => true,
+        _ => false,
+    }
+}
+fn dom_floor(ty: &str, x: Fr) -> bool {
+    x.0 >= 0 || fits(ty, x.0.checked_sub(x.1))
+}
+fn dom_ceil(ty: &str, x: Fr) -> bool {
+    x.0 < 0 || fits(ty, x.0.checked_add(x.1))
+}
+/// exact result of a binary operator on canonical operands (only called inside `dom_bin`: nothing overflows there)
+fn spec_bin(op: &str, x: Fr, y: Fr) -> Fr {
+    match op {
+        "add" => canon(x.0 * y.1 + x.1 * y.0, x.1 * y.1),
+        "sub" => canon(x.0 * y.1 - x.1 * y.0, x.1 * y.1),
+        "mul" => canon(x.0 * y.0, x.1 * y.1),
+        _ => canon(x.0 * y.1, x.1 * y.0),
+    }
+}
+fn spec_cmp(x: Fr, y: Fr) -> Ordering {
+    // canonical operands, inside the domain of `cmp`: both cross products fit
+    (x.0 * y.1).cmp(&(x.1 * y.0))
+}
+fn ord_name(c: Ordering) -> &'static str {
+    match c {
+        Ordering::Less => "lt",
+        Ordering::Equal => "eq",
+        Ordering::Greater => "gt",
+    }
+}
+
+/// What a case line asks for, as the harness itself understands it.
+struct Case {
+    op: String,
+    ty: String,
+    sub_ops: Vec<String>, // chain: the two operators
+    nums: Vec<i128>,
+    in_dom: bool,
+    /// comparisons of each operand with itself are inside the domain too (reflexivity / clamp checks)
+    self_ok: bool,
+    expect: Option<String>,
+}
+
+fn analyse(line: &str) -> Option<Case> {
+    let toks: Vec<&str> = line.split_whitespace().collect();
+    if toks.is_empty() {
+        return None;
+    }
+    let (op, ty) = toks[0].split_once(':')?;
+    if !TYPES.contains(&ty) {
+        return None;
+    }
+    let mut rest = &toks[1..];
+    let mut sub_ops = Vec::new();
+    if op == "chain" {
+        if rest.len() < 2 {
+            return None;
         }
-        "floor" => {
-            let p = canon(v[0], v[1]);
-            Some(format!("{} 1", floor_div(p.0, p.1)))
+        for o in &rest[..2] {
+            if !["add", "sub", "mul", "div"].contains(o) {
+                return None;
+            }
+            sub_ops.push(o.to_string());
         }
-        "ceil" => {
-            let p = canon(v[0], v[1]);
-            Some(format!("{} 1", -floor_div(-p.0, p.1)))
+        rest = &rest[2..];
+    }
+    let mut nums: Vec<i128> = Vec::new();
+    for t in rest {
+        nums.push(t.parse::<i128>().ok()?);
+    }
+    let fr = |p: Fr| format!("{} {}", p.0, p.1);
+    let arity_ok = match op {
+        "consts" => nums.is_empty(),
+        "newint" => nums.len() == 1,
+        "new" | "neg" | "floor" | "ceil" | "show" => nums.len() == 2,
+        "add" | "sub" | "mul" | "div" | "cmp" | "eq" => nums.len() == 4,
+        "chain" => nums.len() == 6,
+        "sort" => nums.len() >= 2 && nums.len() % 2 == 0,
+        _ => false,
+    };
+    if !arity_ok {
+        return None;
+    }
+    let mut c = Case { op: op.to_string(), ty: ty.to_string(), sub_ops, nums: nums.clone(), in_dom: false, self_ok: false, expect: None };
+    match op {
+        "consts" => {
+            c.in_dom = true;
+            c.expect = Some("0 1 1 1".to_string());
         }
-        "add" => Some(fr(canon(v[0] * v[3] + v[2] * v[1], v[1] * v[3]))),
-        "sub" => Some(fr(canon(v[0] * v[3] - v[2] * v[1], v[1] * v[3]))),
-        "mul" => Some(fr(canon(v[0] * v[2], v[1] * v[3]))),
-        "div" => Some(fr(canon(v[0] * v[3], v[1] * v[2]))),
-        "cmp" | "eq" => {
-            // sign(a/b - c/d) = sign((a*d - c*b) * (b*d))
-            let lhs = v[0] * v[3] - v[2] * v[1];
-            let s = lhs.signum() * (v[1].signum() * v[3].signum());
-            if op == "eq" {
-                Some((s == 0).to_string())
-            } else {
-                Some(match s {
-                    -1 => "lt",
-                    0 => "eq",
-                    _ => "gt",
+        "newint" => {
+            c.in_dom = fits(ty, Some(nums[0]));
+            c.self_ok = mag_ok(ty, Some(nums[0])); // new(n, 1) exists
+            c.expect = Some(format!("{} 1", nums[0]));
+        }
+        _ => {
+            let pairs: Vec<Fr> = nums.chunks(2).map(|p| (p[0], p[1])).collect();
+            if !pairs.iter().all(|p| dom_new(ty, p.0, p.1)) {
+                return Some(c);
+            }
+            let cs: Vec<Fr> = pairs.iter().map(|p| canon(p.0, p.1)).collect();
+            let x = cs[0];
+            match op {
+                "new" => {
+                    c.in_dom = true;
+                    c.expect = Some(fr(x));
                 }
-                .to_string())
+                "show" => {
+                    c.in_dom = true;
+                    c.expect = Some(format!("{}/{}", x.0, x.1));
+                }
+                "neg" => {
+                    c.in_dom = true;
+                    c.expect = Some(fr((-x.0, x.1)));
+                }
+                "floor" => {
+                    c.in_dom = dom_floor(ty, x);
+                    c.expect = Some(format!("{} 1", floor_div(x.0, x.1)));
+                }
+                "ceil" => {
+                    c.in_dom = dom_ceil(ty, x);
+                    c.expect = Some(format!("{} 1", -floor_div(-x.0, x.1)));
+                }
+                "add" | "sub" | "mul" | "div" => {
+                    c.in_dom = dom_bin(op, ty, x, cs[1]);
+                    if c.in_dom {
+                        c.expect = Some(fr(spec_bin(op, x, cs[1])));
+                    }
+                }
+                "cmp" => {
+                    c.in_dom = dom_bin("cmp", ty, x, cs[1]);
+                    c.self_ok = dom_bin("cmp", ty, x, x) && dom_bin("cmp", ty, cs[1], cs[1]);
+                    if c.in_dom {
+                        c.expect = Some(ord_name(spec_cmp(x, cs[1])).to_string());
+                    }
+                }
+                "eq" => {
+                    c.in_dom = true;
+                    c.expect = Some((x == cs[1]).to_string());
+                }
+                "chain" => {
+                    if dom_bin(&c.sub_ops[0], ty, x, cs[1]) {
+                        let r = spec_bin(&c.sub_ops[0], x, cs[1]);
+                        if dom_bin(&c.sub_ops[1], ty, r, cs[2]) {
+                            c.in_dom = true;
+                            c.expect = Some(fr(spec_bin(&c.sub_ops[1], r, cs[2])));
+                        }
+                    }
+                }
+                "sort" => {
+                    c.in_dom = cs.iter().all(|p| cs.iter().all(|q| dom_bin("cmp", ty, *p, *q)));
+                    if c.in_dom {
+                        let mut s = cs.clone();
+                        // selection sort by the oracle's own comparison (no std sort, no rlib comparison)
+                        for i in 0..s.len() {
+                            for j in i + 1..s.len() {
+                                if spec_cmp(s[j], s[i]) == Ordering::Less {
+                                    s.swap(i, j);
+                                }
+                            }
+                        }
+                        c.expect = Some(show_list(&s));
+                    }
+                }
+                _ => {}
             }
         }
-        _ => None,
     }
+    Some(c)
+}
+fn show_list(s: &[Fr]) -> String {
+    format!("[{}]", s.iter().map(|p| format!("{}/{}", p.0, p.1)).collect::<Vec<_>>().join(","))
 }
 
 // ---------------------------------------------------------------- the implementation under test
 fn fr<T: Display>(r: &Rational<T>) -> String {
     format!("{} {}", r.a, r.b)
 }
-fn hash_of<H: Hash>(x: &H) -> u64 {
+fn hash_of<H: Hash + ?Sized>(x: &H) -> u64 {
     let mut h = DefaultHasher::new();
     x.hash(&mut h);
     h.finish()
@@ -124,41 +302,225 @@ macro_rules! four_forms {
     }};
 }
 
-fn run_t<T>(op: &str, v: &[i128], in_dom: bool) -> Result<String, String>
-where
-    T: SignedInteger + Copy + Hash + Display + Debug + TryFrom<i128>,
-{
+trait Elem: SignedInteger + Copy + Hash + Display + Debug + TryFrom<i128> {}
+impl<T: SignedInteger + Copy + Hash + Display + Debug + TryFrom<i128>> Elem for T {}
+
+/// one operator, one syntactic form (0 by value, 1 by reference, 2 assigning by value, 3 assigning by reference)
+fn apply<T: Elem>(op: &str, form: u8, x: Rational<T>, y: Rational<T>) -> Rational<T> {
+    let mut r = x;
+    match (op, form) {
+        ("add", 0) => x + y,
+        ("add", 1) => x + &y,
+        ("add", 2) => { r += y; r }
+        ("add", _) => { r += &y; r }
+        ("sub", 0) => x - y,
+        ("sub", 1) => x - &y,
+        ("sub", 2) => { r -= y; r }
+        ("sub", _) => { r -= &y; r }
+        ("mul", 0) => x * y,
+        ("mul", 1) => x * &y,
+        ("mul", 2) => { r *= y; r }
+        ("mul", _) => { r *= &y; r }
+        ("div", 0) => x / y,
+        ("div", 1) => x / &y,
+        ("div", 2) => { r /= y; r }
+        (_, _) => { r /= &y; r }
+    }
+}
+
+/// `cmp` and every view of the order the standard traits derive from it (provided methods included: a crate may override them)
+fn cmp_views<T: Elem>(x: Rational<T>, y: Rational<T>, self_ok: bool) -> String {
+    let c = x.cmp(&y);
+    let name = ord_name(c);
+    let (lt, eq, gt) = (c == Ordering::Less, c == Ordering::Equal, c == Ordering::Greater);
+    let mut bad: Vec<&str> = Vec::new();
+    let mut chk = |ok: bool, what: &'static str| {
+        if !ok {
+            bad.push(what);
+        }
+    };
+    chk(x.partial_cmp(&y) == Some(c), "partial_cmp");
+    chk((x < y) == lt && (x <= y) == !gt && (x > y) == gt && (x >= y) == !lt, "lt-le-gt-ge");
+    chk((x == y) == eq && (x != y) == !eq, "eq-ne");
+    chk(y.cmp(&x) == c.reverse() && y.partial_cmp(&x) == Some(c.reverse()), "reversed-cmp");
+    chk((y < x) == gt && (y <= x) == !lt && (y > x) == lt && (y >= x) == !gt, "reversed-lt-le-gt-ge");
+    // provided methods of Ord: min / max are `min_by(cmp)` / `max_by(cmp)` (the left operand on a tie / the right one)
+    chk(fr(&Ord::min(x, y)) == fr(if gt { &y } else { &x }) && fr(&Ord::max(x, y)) == fr(if gt { &x } else { &y }), "min-max");
+    chk(fr(&Ord::min(y, x)) == fr(if lt { &x } else { &y }) && fr(&Ord::max(y, x)) == fr(if lt { &y } else { &x }), "reversed-min-max");
+    chk(fr(std::cmp::min_by(&x, &y, |p, q| p.cmp(q))) == fr(if gt { &y } else { &x }), "min_by");
+    // through containers whose comparison is built from the element's: tuples (chained lt/le/gt/ge), slices, Option, Reverse
+    chk(((x, 0u8) < (y, 1u8)) == !gt && ((x, 1u8) < (y, 0u8)) == lt && ((x, 0u8) <= (y, 0u8)) == !gt, "tuple-lt-le");
+    chk(((x, 1u8) > (y, 0u8)) == !lt && ((x, 0u8) > (y, 1u8)) == gt && ((x, 0u8) >= (y, 0u8)) == !lt, "tuple-gt-ge");
+    chk((x, 0u8).cmp(&(y, 0u8)) == c && (x, 0u8).partial_cmp(&(y, 0u8)) == Some(c), "tuple-cmp");
+    let (sx, sy) = ([x], [y]);
+    chk(sx[..].cmp(&sy[..]) == c && sx[..].partial_cmp(&sy[..]) == Some(c) && (sx[..] < sy[..]) == lt && (sx[..] >= sy[..]) == !lt, "slice-cmp");
+    chk((sx[..] == sy[..]) == eq && (sx[..] != sy[..]) == !eq && (vec![x] == vec![y]) == eq, "slice-eq-ne");
+    chk(Some(x).cmp(&Some(y)) == c && (Some(x) == Some(y)) == eq && (Some(x) != Some(y)) == !eq && (Some(x) < Some(y)) == lt, "option");
+    chk(Reverse(x).cmp(&Reverse(y)) == c.reverse() && (Reverse(x) < Reverse(y)) == gt && (Reverse(x) >= Reverse(y)) == !gt, "reverse");
+    if self_ok {
+        // a value against itself, and clamp (asserts min <= max, then compares self with both bounds)
+        chk(x.cmp(&x) == Ordering::Equal && x >= x && x <= x && !(x < x) && !(x > x) && x == x && !(x != x), "reflexive");
+        let (lo, hi) = if gt { (y, x) } else { (x, y) };
+        chk(fr(&x.clamp(lo, hi)) == fr(&x) && fr(&y.clamp(lo, hi)) == fr(&y), "clamp-inside");
+        chk(fr(&lo.clamp(hi, hi)) == fr(&hi) && fr(&hi.clamp(lo, lo)) == fr(&lo), "clamp-outside");
+    }
+    if bad.is_empty() {
+        name.to_string()
+    } else {
+        format!("{}_inconsistent:{}", name, bad.join("+"))
+    }
+}
+
+/// `==` and everything that must agree with it: `!=`, Hash (value, slice, HashSet), Clone / clone_from / Copy
+fn eq_views<T: Elem>(x: Rational<T>, y: Rational<T>) -> String {
+    let e = x == y;
+    let structural = fr(&x) == fr(&y);
+    let same_hash = hash_of(&x) == hash_of(&y);
+    let mut set = HashSet::new();
+    set.insert(x);
+    let member = set.contains(&y);
+    let mut bad: Vec<&str> = Vec::new();
+    let mut chk = |ok: bool, what: &'static str| {
+        if !ok {
+            bad.push(what);
+        }
+    };
+    chk((x != y) == !e && (y == x) == e && (y != x) == !e, "ne");
+    chk(e == structural, "structural");
+    chk(member == e && (!e || same_hash), "hash");
+    chk(([x][..] == [y][..]) == e && ([x, y][..] != [y, x][..]) == !e, "slice-eq");
+    // Clone: `clone` gives the same fields as the Copy, `clone_from` overwrites a fresh and a used destination
+    let c1 = x.clone();
+    let mut c2 = Rational::<T>::new_int(T::ONE);
+    c2.clone_from(&x);
+    let mut c3 = y;
+    c3.clone_from(&x);
+    chk(fr(&c1) == fr(&x) && fr(&c2) == fr(&x) && fr(&c3) == fr(&x) && c1 == x && hash_of(&c1) == hash_of(&x), "clone");
+    // a slice hashes as its length followed by its elements in order (Hash::hash_slice is a provided method)
+    let mut h = DefaultHasher::new();
+    h.write_usize(2);
+    x.hash(&mut h);
+    y.hash(&mut h);
+    chk(hash_of(&[x, y][..]) == h.finish(), "hash_slice");
+    if bad.is_empty() {
+        e.to_string()
+    } else {
+        format!("{}_inconsistent:{}_samehash={}_member={}", e, bad.join("+"), same_hash, member)
+    }
+}
+
+/// several live values at once: every ordered collection / search / extremum the standard library builds on `cmp`, `lt`, `==`, `Hash`
+fn sort_views<T: Elem>(v: &[Rational<T>]) -> String {
+    let show = |s: &[Rational<T>]| format!("[{}]", s.iter().map(|p| format!("{}/{}", p.a, p.b)).collect::<Vec<_>>().join(","));
+    let mut s1 = v.to_vec();
+    s1.sort();
+    let base = show(&s1);
+    let mut bad: Vec<&str> = Vec::new();
+    let mut chk = |ok: bool, what: &'static str| {
+        if !ok {
+            bad.push(what);
+        }
+    };
+    let mut s2 = v.to_vec();
+    s2.sort_unstable();
+    let mut s3 = v.to_vec();
+    s3.sort_by(|p, q| p.cmp(q));
+    let mut s4 = v.to_vec();
+    s4.sort_by(|p, q| p.partial_cmp(q).unwrap());
+    let mut s5 = v.to_vec();
+    s5.sort_by_key(|p| *p);
+    let mut s6 = v.to_vec();
+    s6.sort_by(|p, q| if p < q { Ordering::Less } else if p > q { Ordering::Greater } else { Ordering::Equal });
+    chk(show(&s2) == base && show(&s3) == base && show(&s4) == base && show(&s5) == base && show(&s6) == base, "sort-variants");
+    chk(s1.is_sorted() && s1.windows(2).all(|w| w[0] <= w[1] && !(w[1] < w[0])), "is_sorted");
+    // distinct values by the FIELDS (not by the crate's ==)
+    let mut distinct: Vec<Rational<T>> = Vec::new();
+    for p in &s1 {
+        if distinct.last().map_or(true, |q| fr(q) != fr(p)) {
+            distinct.push(*p);
+        }
+    }
+    let bt: Vec<Rational<T>> = v.iter().copied().collect::<BTreeSet<_>>().into_iter().collect();
+    chk(show(&bt) == show(&distinct), "btreeset");
+    let mut dd = s1.clone();
+    dd.dedup();
+    chk(show(&dd) == show(&distinct), "dedup");
+    let hs: HashSet<Rational<T>> = v.iter().copied().collect();
+    chk(hs.len() == distinct.len() && v.iter().all(|p| hs.contains(p)), "hashset");
+    chk(v.iter().min().map(fr) == s1.first().map(fr) && v.iter().max().map(fr) == s1.last().map(fr), "iter-min-max");
+    chk(v.iter().copied().min_by(|p, q| p.cmp(q)).map(|p| fr(&p)) == s1.first().map(fr), "min_by");
+    chk(v.iter().copied().reduce(Ord::max).map(|p| fr(&p)) == s1.last().map(fr) && v.iter().copied().reduce(Ord::min).map(|p| fr(&p)) == s1.first().map(fr), "reduce-min-max");
+    chk(v.iter().all(|p| matches!(s1.binary_search(p), Ok(i) if fr(&s1[i]) == fr(p))), "binary_search");
+    chk(v.iter().all(|p| v.contains(p) && v.iter().position(|q| q == p).map_or(false, |i| fr(&v[i]) == fr(p))), "contains-position");
+    // clamp of every value between every ordered pair of bounds, against its definition in terms of the sorted positions
+    let (lo_all, hi_all) = (s1[0], s1[s1.len() - 1]);
+    let mut clamp_ok = true;
+    for (i, p) in s1.iter().enumerate() {
+        clamp_ok &= fr(&(*p).clamp(lo_all, hi_all)) == fr(p);
+        for j in 0..s1.len() {
+            for k in j..s1.len() {
+                let exp = if i < j && fr(p) != fr(&s1[j]) { s1[j] } else if i > k && fr(p) != fr(&s1[k]) { s1[k] } else { *p };
+                clamp_ok &= fr(&(*p).clamp(s1[j], s1[k])) == fr(&exp);
+            }
+        }
+    }
+    chk(clamp_ok, "clamp");
+    // hashing the whole slice = length, then the elements in order
+    let mut h = DefaultHasher::new();
+    h.write_usize(v.len());
+    for p in v {
+        p.hash(&mut h);
+    }
+    chk(hash_of(v) == h.finish() && hash_of(&v.to_vec()) == hash_of(v), "hash_slice");
+    // whole-slice comparisons
+    chk(s1[..].cmp(&s1[..]) == Ordering::Equal && v[..] == v.to_vec()[..] && !(v[..] != v.to_vec()[..]), "slice-self");
+    if distinct.len() > 1 {
+        chk(s1[..].cmp(&[hi_all][..]) == Ordering::Less && [hi_all][..] > s1[..] && s1[..] != [hi_all][..], "slice-lex");
+    }
+    // clones made in the middle of the work are as good as the originals
+    let cl: Vec<Rational<T>> = v.iter().map(|p| p.clone()).collect();
+    let mut cf = vec![Rational::<T>::new_int(T::ZERO); v.len()];
+    cf.clone_from_slice(v);
+    let mut cv = s1.clone();
+    cv.clone_from(&v.to_vec());
+    chk(show(&cl) == show(v) && show(&cf) == show(v) && show(&cv) == show(v), "clone");
+    if bad.is_empty() {
+        base
+    } else {
+        format!("{}_inconsistent:{}", base, bad.join("+"))
+    }
+}
+
+fn run_t<T: Elem>(c: &Case) -> Result<String, String> {
     let mut t: Vec<T> = Vec::new();
-    for &z in v {
+    for &z in &c.nums {
         match T::try_from(z) {
             Ok(x) => t.push(x),
             Err(_) => return Ok("INVALID".to_string()),
         }
     }
-    let need = match op {
-        "newint" => 1,
-        "new" | "neg" | "floor" | "ceil" | "show" => 2,
-        "add" | "sub" | "mul" | "div" | "cmp" | "eq" => 4,
-        _ => return Ok("bad-op".to_string()),
-    };
-    if t.len() != need {
-        return Ok("INVALID".to_string());
-    }
+    let op = c.op.as_str();
+    let (in_dom, self_ok) = (c.in_dom, c.self_ok);
+    let sub_ops = c.sub_ops.clone();
     catch(move || {
-        if need == 1 {
+        if op == "consts" {
+            let (z, o) = (<Rational<T> as ZeroOne>::ZERO, <Rational<T> as ZeroOne>::ONE);
+            return format!("{} {}", fr(&z), fr(&o));
+        }
+        if op == "newint" {
             // `new_int(n)` must be the same value as `new(n, 1)` for ==, cmp, Hash and HashSet
             let x = Rational::<T>::new_int(t[0]);
-            if !in_dom {
+            if !in_dom || !self_ok {
                 return fr(&x);
             }
             let y = Rational::<T>::new(t[0], T::ONE);
             let mut set = HashSet::new();
             set.insert(y);
-            let ok = x == y && x.cmp(&y) == Ordering::Equal && hash_of(&x) == hash_of(&y) && set.contains(&x);
+            let ok = x == y && !(x != y) && hash_of(&x) == hash_of(&y) && set.contains(&x);
             return if ok { fr(&x) } else { format!("{}_differs-from-new(n,1)={}", fr(&x), fr(&y)).replace(' ', "_") };
         }
         let x = Rational::<T>::new(t[0], t[1]);
-        if need == 2 {
+        if t.len() == 2 && op != "sort" {
             return match op {
                 "new" => fr(&x),
                 "neg" => fr(&(-x)),
@@ -175,102 +537,67 @@ where
                 }
             };
         }
+        if op == "sort" {
+            let v: Vec<Rational<T>> = t.chunks(2).map(|p| Rational::<T>::new(p[0], p[1])).collect();
+            if !in_dom {
+                let mut s = v.clone();
+                s.sort();
+                return format!("[{}]", s.iter().map(|p| format!("{}/{}", p.a, p.b)).collect::<Vec<_>>().join(","));
+            }
+            return sort_views(&v);
+        }
         let y = Rational::<T>::new(t[2], t[3]);
         match op {
             "add" => four_forms!(x, y, +, +=),
             "sub" => four_forms!(x, y, -, -=),
             "mul" => four_forms!(x, y, *, *=),
             "div" => four_forms!(x, y, /, /=),
+            "chain" => {
+                // a returned value is re-used as an operand, through every pairing of syntactic forms
+                let z = Rational::<T>::new(t[4], t[5]);
+                let base = fr(&apply(&sub_ops[1], 0, apply(&sub_ops[0], 0, x, y), z));
+                if !in_dom {
+                    return base;
+                }
+                for f1 in 0..4u8 {
+                    for f2 in 0..4u8 {
+                        let r = apply(&sub_ops[1], f2, apply(&sub_ops[0], f1, x, y), z);
+                        if fr(&r) != base {
+                            return format!("forms-differ_{}_form{}{}={}", base, f1, f2, fr(&r)).replace(' ', "_");
+                        }
+                    }
+                }
+                base
+            }
             "cmp" => {
-                let c = x.cmp(&y);
                 if !in_dom {
                     // outside the domain (overflowing or zero-denominator operands) only `cmp` itself is mirrored
-                    return match c {
-                        Ordering::Less => "lt",
-                        Ordering::Equal => "eq",
-                        Ordering::Greater => "gt",
-                    }
-                    .to_string();
+                    return ord_name(x.cmp(&y)).to_string();
                 }
-                let name = match c {
-                    Ordering::Less => "lt",
-                    Ordering::Equal => "eq",
-                    Ordering::Greater => "gt",
-                };
-                // consistency of the derived views of the order and with ==
-                let ok = x.partial_cmp(&y) == Some(c)
-                    && (x < y) == (c == Ordering::Less)
-                    && (x <= y) == (c != Ordering::Greater)
-                    && (x > y) == (c == Ordering::Greater)
-                    && (x >= y) == (c != Ordering::Less)
-                    && (x == y) == (c == Ordering::Equal)
-                    && (x != y) == (c != Ordering::Equal)
-                    && y.cmp(&x) == c.reverse()
-                    && y.partial_cmp(&x) == Some(c.reverse())
-                    && (y < x) == (c == Ordering::Greater)
-                    && (y <= x) == (c != Ordering::Less)
-                    && (y > x) == (c == Ordering::Less)
-                    && (y >= x) == (c != Ordering::Greater)
-                    && fr(&Ord::min(x, y)) == fr(if c == Ordering::Greater { &y } else { &x })
-                    && fr(&Ord::max(x, y)) == fr(if c == Ordering::Greater { &x } else { &y })
-                    && x.cmp(&x) == Ordering::Equal
-                    && x >= x
-                    && x <= x
-                    && !(x < x)
-                    && !(x > x);
-                if ok {
-                    name.to_string()
-                } else {
-                    format!("{}_inconsistent", name)
-                }
+                cmp_views(x, y, self_ok)
             }
             _ => {
-                // eq + hash agreement
-                let e = x == y;
-                let same_hash = hash_of(&x) == hash_of(&y);
-                let mut set = HashSet::new();
-                set.insert(x);
-                let member = set.contains(&y);
-                let ok = (x != y) == !e && member == e && (!e || same_hash);
-                if ok {
-                    e.to_string()
-                } else {
-                    format!("{}_hash-disagrees_samehash={}_member={}", e, same_hash, member)
+                if !in_dom {
+                    return (x == y).to_string();
                 }
+                eq_views(x, y)
             }
         }
     })
 }
 
 fn run_case(line: &str) -> String {
-    let toks: Vec<&str> = line.split_whitespace().collect();
-    if toks.is_empty() {
-        return out1("INVALID");
-    }
-    let (op, ty) = match toks[0].split_once(':') {
-        Some((o, t)) => (o, t),
-        None => (toks[0], ""),
+    let c = match analyse(line) {
+        Some(c) => c,
+        None => return out1("INVALID"),
     };
-    let mut nums: Vec<i128> = Vec::new();
-    for t in &toks[1..] {
-        match t.parse::<i128>() {
-            Ok(z) => nums.push(z),
-            Err(_) => return out1("INVALID"),
-        }
-    }
-    // the property's domain: operands inside the guard, non-zero denominators, non-zero divisor
-    let g = if TYPES.contains(&ty) { guard(ty) } else { 0 };
-    let in_guard = nums.iter().all(|z| z.unsigned_abs() <= g as u128);
-    let dens_ok = if op == "newint" {
-        nums.len() == 1
-    } else {
-        nums.len() >= 2 && nums[1] != 0 && (nums.len() < 4 || (nums[3] != 0 && (op != "div" || nums[2] != 0)))
-    };
-    let in_dom = in_guard && dens_ok;
-    let r = match ty {
-        "i32" => run_t::<i32>(op, &nums, in_dom),
-        "i64" => run_t::<i64>(op, &nums, in_dom),
-        "i128" => run_t::<i128>(op, &nums, in_dom),
+    let r = match c.ty.as_str() {
+        "i8" => run_t::<i8>(&c),
+        "i16" => run_t::<i16>(&c),
+        "i32" => run_t::<i32>(&c),
+        "i64" => run_t::<i64>(&c),
+        "i128" => run_t::<i128>(&c),
+        "isize" => run_t::<isize>(&c),
         _ => Ok("bad-type".to_string()),
     };
     let raw = match r {
@@ -278,9 +605,9 @@ fn run_case(line: &str) -> String {
         Err(e) => e,
     };
     // inside the domain the harness's own oracle must agree as well
-    if in_guard && dens_ok {
-        if let Some(exp) = oracle(op, &nums) {
-            if exp != raw {
+    if c.in_dom {
+        if let Some(exp) = &c.expect {
+            if *exp != raw {
                 return out2(&raw, &format!("{}_oracle-expects_{}", raw, exp).replace(' ', "_"));
             }
         }
@@ -296,8 +623,20 @@ fn run_case(line: &str) -> String {
 
 // ---------------------------------------------------------------- generators
 const BIN_OPS: [&str; 6] = ["add", "sub", "mul", "div", "cmp", "eq"];
+const ARITH: [&str; 4] = ["add", "sub", "mul", "div"];
 const UN_OPS: [&str; 5] = ["new", "neg", "floor", "ceil", "show"];
 
+fn rand_u128(rng: &mut SplitMix64) -> u128 {
+    (rng.next_u64() as u128) << 64 | rng.next_u64() as u128
+}
+/// uniform in [lo, hi] (0 <= lo)
+fn range(rng: &mut SplitMix64, lo: i128, hi: i128) -> i128 {
+    if hi <= lo {
+        return lo;
+    }
+    let span = (hi - lo) as u128 + 1;
+    lo + (rand_u128(rng) % span) as i128
+}
 /// boundary-biased magnitude in [0, lim]
 fn magnitude(rng: &mut SplitMix64, lim: i128) -> i128 {
     let bits = 128 - (lim as u128).leading_zeros() as u64; // lim < 2^bits
@@ -335,6 +674,21 @@ fn nonzero(v: i128) -> i128 {
         v
     }
 }
+/// magnitude in [1, lim], log-uniform: every size class of operand is equally likely
+fn log_uniform(rng: &mut SplitMix64, lim: i128) -> i128 {
+    let bits = 128 - (lim as u128).leading_zeros() as u64;
+    let hi = ((1u128 << (rng.below(bits) + 1)) - 1).min(lim as u128) as i128;
+    range(rng, (hi / 2).max(1), hi)
+}
+/// the closest value to `a` (towards zero) that is coprime to `b`
+fn coprime_towards_zero(mut a: i128, b: i128) -> i128 {
+    let mut budget = 64;
+    while budget > 0 && a != 0 && euclid(a, b) != 1 {
+        a -= a.signum();
+        budget -= 1;
+    }
+    a
+}
 
 /// number of `a %= b; swap` rounds rlib's gcd loop performs on (|n|, |d|)
 fn euclid_rounds(n: i128, d: i128) -> u32 {
@@ -348,18 +702,18 @@ fn euclid_rounds(n: i128, d: i128) -> u32 {
     }
     k
 }
-/// the (numerator, denominator) handed to `norm` by a binary operator on canonical x = a/b, y = c/d
+/// the (numerator, denominator) handed to `norm` by a binary operator on canonical x = a/b, y = c/d (None: leaves i128)
 fn norm_input(op: &str, v: &[i128]) -> Option<(i128, i128)> {
-    if v.len() != 4 || v[1] == 0 || v[3] == 0 {
+    if v.len() != 4 || v[1] == 0 || v[3] == 0 || v.iter().any(|z| *z == i128::MIN) {
         return None;
     }
     let (a, b) = canon(v[0], v[1]);
     let (c, d) = canon(v[2], v[3]);
     match op {
-        "add" => Some((a * d + b * c, b * d)),
-        "sub" | "cmp" => Some((a * d - b * c, b * d)),
-        "mul" => Some((a * c, b * d)),
-        "div" => Some((a * d, b * c)),
+        "add" => Some((a.checked_mul(d)?.checked_add(b.checked_mul(c)?)?, b.checked_mul(d)?)),
+        "sub" | "cmp" => Some((a.checked_mul(d)?.checked_sub(b.checked_mul(c)?)?, b.checked_mul(d)?)),
+        "mul" => Some((a.checked_mul(c)?, b.checked_mul(d)?)),
+        "div" => Some((a.checked_mul(d)?, b.checked_mul(c)?)),
         _ => None,
     }
 }
@@ -373,8 +727,45 @@ fn note_depth(st: &mut Stats, op: &str, ty: &str, v: &[i128]) {
             st.bump(&format!("euclid_rounds_65plus_op_{}", op));
         }
     }
-    if (op == "cmp" || op == "eq") && v.len() == 4 && v[1] != 0 && v[3] != 0 && canon(v[0], v[1]) == canon(v[2], v[3]) {
+    if (op == "cmp" || op == "eq") && v.len() == 4 && v[1] != 0 && v[3] != 0 && v.iter().all(|z| *z != i128::MIN) && canon(v[0], v[1]) == canon(v[2], v[3]) {
         st.bump(&format!("{}_on_equal_values_{}", op, ty));
+    }
+}
+/// what an edge-stream case exercises, MEASURED on the emitted line (not assumed from the recipe)
+fn note_edge(st: &mut Stats, line: &str) {
+    let c = match analyse(line) {
+        Some(c) => c,
+        None => return,
+    };
+    let (op, ty) = (c.op.as_str(), c.ty.as_str());
+    st.bump(&format!("edge_{}_{}", if c.in_dom { "in_domain" } else { "outside_domain" }, ty));
+    if !c.in_dom {
+        return;
+    }
+    st.bump(&format!("edge_in_domain_op_{}", op));
+    let m = ty_max(ty);
+    let above_guard = c.nums.iter().any(|z| z.unsigned_abs() > guard(ty) as u128);
+    if above_guard {
+        st.bump(&format!("edge_in_domain_operand_above_guard_{}", ty));
+        st.bump(&format!("edge_in_domain_operand_above_guard_op_{}", op));
+    }
+    if let Some((n, d)) = norm_input(op, &c.nums) {
+        let top = |z: i128| z.unsigned_abs() > (m / 2) as u128;
+        if top(n) || top(d) {
+            st.bump(&format!("edge_norm_operand_in_top_bit_{}", ty));
+        }
+        if top(n) && top(d) {
+            // both arguments of the gcd inside `norm` above MAX/2: its first remainder is above MAX/2 as well
+            st.bump(&format!("edge_gcd_operands_both_in_top_bit_{}", ty));
+            st.bump(&format!("edge_gcd_operands_both_in_top_bit_op_{}", op));
+        }
+    }
+    if op == "eq" && c.nums.len() == 4 {
+        let (x, y) = (canon(c.nums[0], c.nums[1]), canon(c.nums[2], c.nums[3]));
+        if x != y && !dom_bin("cmp", ty, x, y) {
+            // == must answer although the comparison of the same two values would overflow
+            st.bump(&format!("eq_where_cmp_would_overflow_{}", ty));
+        }
     }
 }
 /// Fibonacci and Lucas numbers not exceeding `lim`
@@ -392,12 +783,206 @@ fn fib_lucas(lim: i128) -> (Vec<i128>, Vec<i128>) {
     (f, l)
 }
 
+/// One case at the true edge of `ty`: the operands are chosen so that the cross products / sums the operator forms land
+/// in the top bits of the type (just inside and just outside the domain), or - for ==, Hash, neg, floor, ceil, Display,
+/// new_int, whose domain is everything representable - anywhere up to MAX.
+fn edge_case(rng: &mut SplitMix64, ty: &str) -> String {
+    let m = ty_max(ty);
+    // a denominator pair with b*d <= MAX, the product preferably in the top bits
+    let bd = |rng: &mut SplitMix64| -> (i128, i128) {
+        let b = log_uniform(rng, m);
+        let top = m / b;
+        let d = match rng.below(4) {
+            0 => top - (rng.below(3) as i128).min(top - 1),
+            1 => range(rng, (top / 2).max(1), top),
+            2 => log_uniform(rng, top.max(1)),
+            _ => range(rng, 1, top),
+        };
+        if rng.chance(1, 2) { (b, d.max(1)) } else { (d.max(1), b) }
+    };
+    let spell = |rng: &mut SplitMix64, a: i128, b: i128| -> (i128, i128) {
+        // the same value with a negative denominator half of the time
+        if rng.chance(1, 2) { (-a, -b) } else { (a, b) }
+    };
+    match rng.below(12) {
+        0 | 1 | 2 | 3 => {
+            // + - cmp: a*d (+-) b*c close to MAX with b*d <= MAX
+            let op = *rng.pick(&["add", "sub", "cmp", "add", "sub", "cmp", "eq"]);
+            let (b, d) = bd(rng);
+            let target = match rng.below(4) {
+                0 => m - rng.below(3) as i128,
+                1 => range(rng, m / 2, m),
+                2 => range(rng, m / 4, m / 2 + 2),
+                _ => m.saturating_add(1 + rng.below(2) as i128), // just outside (the magnitude of MIN and beyond)
+            };
+            let (a, c) = match rng.below(3) {
+                0 => {
+                    // both products positive, their sum at the target
+                    let p1 = range(rng, 0, target.min(m));
+                    let a = p1 / d;
+                    (a, (target - a * d) / b)
+                }
+                1 => {
+                    // each product near +-MAX, the combination small
+                    let a = m / d - (rng.below(2) as i128).min(m / d);
+                    (a, -(m / b - (rng.below(2) as i128).min(m / b)))
+                }
+                _ => (range(rng, 0, m / d), range(rng, 0, m / b)),
+            };
+            let (a, c) = (coprime_towards_zero(a.clamp(-m, m), b), coprime_towards_zero(c.clamp(-m, m), d));
+            // x + y, or x - (-y), or x cmp (-y): the products add up in magnitude
+            let (a, c) = match op {
+                "add" => if rng.chance(1, 2) { (a, c) } else { (-a, -c) },
+                _ => if rng.chance(1, 2) { (a, -c) } else { (-a, c) },
+            };
+            let ((a, b), (c, d)) = (spell(rng, a, b), spell(rng, c, d));
+            format!("{}:{} {} {} {} {}", op, ty, a, b, c, d)
+        }
+        4 | 5 => {
+            // * and /: both products of the operator close to MAX
+            let op = *rng.pick(&["mul", "div"]);
+            let (p, q) = bd(rng); // p*q <= MAX
+            let (r, s) = bd(rng); // r*s <= MAX
+            // mul: a*c = p*q, b*d = r*s;  div: a*d = p*q, b*c = r*s
+            let (a, b, c, d) = if op == "mul" { (p, r, q, s) } else { (p, r, s, q) };
+            let (a, c) = (coprime_towards_zero(a, b), coprime_towards_zero(c, d));
+            let (a, c) = (signed(rng, a), signed(rng, c));
+            let ((a, b), (c, d)) = (spell(rng, a, b), spell(rng, c, d));
+            format!("{}:{} {} {} {} {}", op, ty, a, b, c, d)
+        }
+        6 | 7 => {
+            // == / Hash between representable values of any size: no product is requested, nothing may overflow
+            let pick = |rng: &mut SplitMix64| -> i128 {
+                match rng.below(4) {
+                    0 => m - rng.below(4) as i128,
+                    1 => log_uniform(rng, m),
+                    2 => range(rng, 1, m),
+                    _ => (isqrt(m) + rng.below(5) as i128 - 2).max(1),
+                }
+            };
+            let (a, b) = (pick(rng), pick(rng));
+            let (c, d) = match rng.below(5) {
+                0 => (a, b),
+                1 => (a, b.saturating_add(signed(rng, 1)).clamp(1, m)),
+                2 => (a.saturating_add(signed(rng, 1)).clamp(1, m), b),
+                3 => (b, a),
+                _ => (pick(rng), pick(rng)),
+            };
+            let (a, c) = (signed(rng, a), signed(rng, c));
+            let ((a, b), (c, d)) = (spell(rng, a, b), spell(rng, c, d));
+            format!("{}:{} {} {} {} {}", if rng.chance(5, 6) { "eq" } else { "cmp" }, ty, a, b, c, d)
+        }
+        8 | 9 => {
+            // floor / ceil where the adjusted numerator a -+ (b - 1) reaches the end of the type; new / neg / show anywhere
+            let op = *rng.pick(&["floor", "ceil", "floor", "ceil", "new", "neg", "show"]);
+            let b = match rng.below(3) {
+                0 => 1 + rng.below(4) as i128,
+                1 => log_uniform(rng, m),
+                _ => range(rng, 1, m),
+            };
+            let a = match rng.below(4) {
+                // floor: a - b = MIN exactly at delta 0 (the last input inside the domain)
+                0 | 1 => (-m).saturating_add(b - 3).saturating_add(rng.below(5) as i128).clamp(-m, m),
+                2 => m - rng.below(3) as i128,
+                _ => { let v = range(rng, 0, m); signed(rng, v) }
+            };
+            let a = if op == "ceil" { -a } else { a };
+            let a = coprime_towards_zero(a, b);
+            let (a, b) = spell(rng, a, b);
+            format!("{}:{} {} {}", op, ty, a, b)
+        }
+        10 => {
+            let n = match rng.below(4) {
+                0 => -m - 1,
+                1 => -m + rng.below(2) as i128,
+                2 => m - rng.below(2) as i128,
+                _ => { let v = range(rng, 0, m); signed(rng, v) }
+            };
+            format!("newint:{} {}", ty, n)
+        }
+        _ => {
+            // a returned value re-used: (x op1 y) op2 z with the second step at the edge
+            let (op1, op2) = (*rng.pick(&ARITH), *rng.pick(&ARITH));
+            if rng.chance(1, 2) {
+                // every component around the fourth root of MAX: both steps inside the domain, the second one close to its edge
+                let r = isqrt(isqrt(m)).max(2);
+                let pick = |rng: &mut SplitMix64| -> i128 { range(rng, (r / 2).max(1), r + r / 2) };
+                let (b, d, f) = (pick(rng), pick(rng), pick(rng));
+                let (a, c, e) = (coprime_towards_zero(pick(rng), b), coprime_towards_zero(pick(rng), d), coprime_towards_zero(pick(rng), f));
+                let (a, c, e) = (signed(rng, a), signed(rng, c), signed(rng, e));
+                return format!("chain:{} {} {} {} {} {} {} {} {}", ty, op1, op2, a, b, c, d, e, f);
+            }
+            let (b, d) = bd(rng);
+            let (a, c) = (range(rng, 0, m / d), range(rng, 0, m / b));
+            let (a, c) = (signed(rng, coprime_towards_zero(a, b)), signed(rng, coprime_towards_zero(c, d)));
+            let f = log_uniform(rng, (isqrt(m)).max(1));
+            let e = { let v = coprime_towards_zero(log_uniform(rng, (isqrt(m)).max(1)), f); signed(rng, v) };
+            format!("chain:{} {} {} {} {} {} {} {} {}", ty, op1, op2, a, b, c, d, e, f)
+        }
+    }
+}
+fn isqrt(n: i128) -> i128 {
+    if n < 2 {
+        return n;
+    }
+    let mut x = (n as f64).sqrt() as i128;
+    while x.checked_mul(x).map_or(true, |v| v > n) {
+        x -= 1;
+    }
+    while (x + 1).checked_mul(x + 1).map_or(false, |v| v <= n) {
+        x += 1;
+    }
+    x
+}
+
+/// several values whose pairwise comparisons are all inside the domain of `ty` (denominators and numerators below sqrt(MAX)/2,
+/// or values at the edge that happen to be pairwise comparable); duplicates and equal values spelled differently included
+fn sort_case(rng: &mut SplitMix64, ty: &str) -> String {
+    let m = ty_max(ty);
+    let lim = match rng.below(3) {
+        0 => (isqrt(m / 2)).max(1),
+        1 => (isqrt(isqrt(m))).max(2),
+        _ => 9.min(isqrt(m / 2)).max(1),
+    };
+    let n = 2 + rng.below(6) as usize;
+    let mut v: Vec<Fr> = Vec::new();
+    while v.len() < n {
+        if !v.is_empty() && rng.chance(1, 4) {
+            // an equal value, possibly spelled differently
+            let (a, b) = v[rng.below(v.len() as u64) as usize];
+            let k = { let v = 1 + rng.below(3) as i128; signed(rng, v) };
+            if mag_ok(ty, a.checked_mul(k)) && mag_ok(ty, b.checked_mul(k)) {
+                v.push((a * k, b * k));
+                continue;
+            }
+        }
+        let b = range(rng, 1, lim);
+        let a = { let v = range(rng, 0, lim); signed(rng, v) };
+        let (a, b) = if rng.chance(1, 3) { (-a, -b) } else { (a, b) };
+        v.push((a, b));
+    }
+    format!("sort:{} {}", ty, v.iter().map(|p| format!("{} {}", p.0, p.1)).collect::<Vec<_>>().join(" "))
+}
+
 fn gen(args: &Args, emit: &mut dyn FnMut(String), st: &mut Stats) {
     let thorough = args.tier == "thorough";
+    // the debug profile (debug-assertions on) re-runs a reduced stream: same families, about a quarter of the volume
+    let lite = args.extra.get("profile").map_or(false, |p| p == "debug");
     let mut rng = SplitMix64::new(args.seed ^ 0xC07);
     // (1) exhaustive small box: every a/b, c/d with numerators in [-k,k] and denominators in [-k,k] \ {0}
     for ty in TYPES {
-        let k: i64 = if thorough { 8 } else if ty == "i64" { 6 } else { 4 };
+        let main3 = ["i32", "i64", "i128"].contains(&ty);
+        let k: i64 = if lite {
+            2
+        } else if thorough {
+            if main3 { 8 } else { 6 }
+        } else if ty == "i64" {
+            6
+        } else if main3 {
+            4
+        } else {
+            3
+        };
         let mut fracs = Vec::new();
         for a in -k..=k {
             for b in -k..=k {
@@ -406,6 +991,8 @@ fn gen(args: &Args, emit: &mut dyn FnMut(String), st: &mut Stats) {
                 }
             }
         }
+        emit(format!("consts:{}", ty));
+        st.bump("consts");
         for n in -4 * k..=4 * k {
             emit(format!("newint:{} {}", ty, n));
             st.bump(&format!("box_newint_{}", ty));
@@ -427,10 +1014,34 @@ fn gen(args: &Args, emit: &mut dyn FnMut(String), st: &mut Stats) {
             }
         }
     }
+    // (1b) i8: every pair of canonical fractions whose cross products all fit (b*d, |a*d|, |b*c| <= 127) - the whole
+    //      neighbourhood of the overflow threshold of the narrowest type, sampled 1/3 in thorough and 1/50 in quick
+    {
+        let keep: u64 = if lite { 200 } else if thorough { 3 } else { 50 };
+        for b in 1..=127i128 {
+            for d in 1..=127 / b {
+                for a in -(127 / d)..=127 / d {
+                    if euclid(a, b) != 1 {
+                        continue;
+                    }
+                    for c in -(127 / b)..=127 / b {
+                        if euclid(c, d) != 1 || rng.below(keep) != 0 {
+                            continue;
+                        }
+                        let op = *rng.pick(&["add", "sub", "mul", "div", "cmp", "add", "sub", "cmp"]);
+                        let line = format!("{}:i8 {} {} {} {}", op, a, b, c, d);
+                        note_edge(st, &line);
+                        emit(line);
+                        st.bump("i8_threshold_neighbourhood");
+                    }
+                }
+            }
+        }
+    }
     // (2) boundary-biased sampling up to the guard of each type
-    let n = if thorough { 2_600_000 } else { 90_000 };
+    let n = if lite { 12_000 } else if thorough { 2_000_000 } else { 66_000 };
     for i in 0..n {
-        let ty = TYPES[(i % 3) as usize];
+        let ty = GUARD_TYPES[(i % 4) as usize];
         let g = guard(ty);
         let mut a = { let v = magnitude(&mut rng, g); signed(&mut rng, v) };
         let mut b = { let v = nonzero(magnitude(&mut rng, g)); signed(&mut rng, v) };
@@ -532,6 +1143,14 @@ fn gen(args: &Args, emit: &mut dyn FnMut(String), st: &mut Stats) {
             if b < 0 {
                 st.bump("sampled_negative_denominator");
             }
+        } else if rng.chance(1, 12) {
+            // a returned value re-used as an operand
+            let (op1, op2) = (*rng.pick(&ARITH), *rng.pick(&ARITH));
+            let r = isqrt(isqrt(ty_max(ty)));
+            let small = |rng: &mut SplitMix64| -> i128 { let v = magnitude(rng, r); signed(rng, v) };
+            let (a, b, c, d, e, f) = (small(&mut rng), nonzero(small(&mut rng)), small(&mut rng), nonzero(small(&mut rng)), small(&mut rng), nonzero(small(&mut rng)));
+            emit(format!("chain:{} {} {} {} {} {} {} {} {}", ty, op1, op2, a, b, c, d, e, f));
+            st.bump(&format!("sampled_chain_{}", ty));
         } else {
             let op = *rng.pick(&BIN_OPS);
             emit(format!("{}:{} {} {} {} {}", op, ty, a, b, c, d));
@@ -542,11 +1161,30 @@ fn gen(args: &Args, emit: &mut dyn FnMut(String), st: &mut Stats) {
             }
         }
     }
-    // (3) a small stream outside the guard (up to the limits of the type): the property does not constrain the
-    //     result there (`S any`), but the machine model mirrors overflow panics, so raw results are still compared
-    let n = if thorough { 60_000 } else { 3_000 };
+    // (2b) the true edge of every type: cross products in the top bits, just inside and just outside the domain;
+    //      ==, Hash, neg, floor, ceil, Display, new_int anywhere up to MAX
+    let n = if lite { 8_000 } else if thorough { 900_000 } else { 36_000 };
     for i in 0..n {
-        let ty = TYPES[(i % 3) as usize];
+        let ty = TYPES[(i % 6) as usize];
+        let line = edge_case(&mut rng, ty);
+        note_edge(st, &line);
+        st.bump(&format!("edge_stream_{}", line.split(':').next().unwrap_or("?")));
+        emit(line);
+    }
+    // (2c) several live values: sort / BTreeSet / HashSet / binary_search / min / max / clamp / slice hash / clones
+    let n = if lite { 1_500 } else if thorough { 120_000 } else { 6_000 };
+    for i in 0..n {
+        let ty = TYPES[(i % 6) as usize];
+        let line = sort_case(&mut rng, ty);
+        let ok = analyse(&line).map_or(false, |c| c.in_dom);
+        st.bump(if ok { "sort_in_domain" } else { "sort_outside_domain" });
+        emit(line);
+    }
+    // (3) a small stream outside the domain (up to the limits of the type): the property does not constrain the
+    //     result there (`S any`), but the machine model mirrors overflow panics, so raw results are still compared
+    let n = if lite { 600 } else if thorough { 60_000 } else { 3_000 };
+    for i in 0..n {
+        let ty = TYPES[(i % 6) as usize];
         let m = ty_max(ty);
         let a = { let v = magnitude(&mut rng, m); signed(&mut rng, v) };
         let b = { let v = magnitude(&mut rng, m); signed(&mut rng, v) };
@@ -559,7 +1197,7 @@ fn gen(args: &Args, emit: &mut dyn FnMut(String), st: &mut Stats) {
             let op = *rng.pick(&BIN_OPS);
             emit(format!("{}:{} {} {} {} {}", op, ty, a, b, c, d));
         }
-        st.bump("outside_guard_stream");
+        st.bump("whole_range_stream");
     }
     // minimum of the type and zero denominators (panics mirrored by the model)
     for ty in TYPES {
@@ -580,6 +1218,9 @@ fn gen(args: &Args, emit: &mut dyn FnMut(String), st: &mut Stats) {
             emit(format!("{}:{} 0 5 0 -3", op, ty));
             st.add("min_and_zero_probes", 3);
         }
+        emit(format!("sort:{} 1 2 {} 1 -1 3", ty, mn));
+        emit(format!("chain:{} add mul 1 2 1 0 1 3", ty));
+        st.add("min_and_zero_probes", 2);
     }
 }
 
